@@ -62,6 +62,18 @@ fn run(args: &hxlib::util::Args) -> i32 {
     if want("e2e") {
         e2e::run(args, &mut sink, &mut forks[9]);
     }
+    // Shard layout: every coqc process pays a fixed start-up cost, so the quick tier uses one shard
+    // per stream (a few for the heaviest streams); the thorough tier has 12x the volume.
+    let scale = if args.thorough() { 12 } else { 1 };
+    for s in sink.streams.iter_mut() {
+        let shards = scale
+            * match s.name.as_str() {
+                "rle_encode_w" => 3,
+                "general_wrap" | "binary_encode" | "bitpack_ool" | "bitpack_inline" | "rle_decode" | "packed_fixed_encode" | "bss_encode" => 2,
+                _ => 1,
+            };
+        s.shard = s.len().div_ceil(shards).max(1);
+    }
     sink.finish();
     0
 }
